@@ -126,6 +126,10 @@ class C20(PropertyCheck):
                     if x == y: return True
                     opts = self.reply_opts(cmds[i][2:]) if i < len(cmds) else {}
                     u, v = norm_tree(parse_reply(x[2:]), parse_reply(y[2:]), **opts)
+                    if u != v and i < len(cmds) and str(cmds[i][2]).upper() in RANDOM_WORDS:
+                        # RANDOMKEY / ZRANDMEMBER draw afresh in each run: only the shape of the reply is comparable
+                        w = str(cmds[i][2]).upper()
+                        return random_reply_shape(w, parse_reply(x[2:])) == random_reply_shape(w, parse_reply(y[2:]))
                     return u == v
                 if len(ra) != len(rb) or not all(same(i, x, y) for i, (x, y) in enumerate(zip(ra, rb))):
                     i = next((i for i, (x, y) in enumerate(zip(ra, rb)) if not same(i, x, y)), min(len(ra), len(rb)))
